@@ -748,7 +748,13 @@ def check_c17(tier, seed, chk):
                 if (str(c["bench"]), c["arg"] if c["arg"] is not None else "-", c["type"] or "-", c["const"] or "-") == tuple(rec[1:5]):
                     order.append(c["path"])
                     break
-        if order != shown:
+        # a thread-count branch `t=N` is one row measured by N concurrent invocations of its case (test mode)
+        expanded = []
+        for pth in shown:
+            mt = re.search(r"::t=(\d+)$", pth)
+            # (bench_local measures on the calling thread only, whatever the thread count)
+            expanded += [pth[: mt.start()]] * (1 if b.get("style") == "bench_local" else int(mt.group(1))) if mt else [pth]
+        if order != expanded:
             violation(res, dict(sigb, **{"class": "row-order"}), "%s %s, arguments kept: %s: rows are displayed as %s but were measured in the order %s" % (sort[0], sort[1], sub, shown[:6], order[:6]), r)
     res["distinct_outcomes"] = len(set(j[0]["args_kind"] for j in jobs))
     res["samples"] = [{"cases_run_alone": len(generic_or_args), "family_runs": len(jobs), "example_argv": jobs[len(jobs) // 2][3] if jobs else None}]
